@@ -50,6 +50,7 @@ pub fn tr_method(cx: &mut Ctx, m: &ExprMethodCall, expected: Option<&Ty>) -> R<T
         _ => {}
     }
     match &rty {
+        Ty::Rng => tr_rng_method(cx, m, &recv, expected),
         Ty::F64 => {
             let un = |f: &str| Ok(Tr::new(format!("(RFun.{} {})", f, recv.s), Ty::F64));
             match name.as_str() {
@@ -226,6 +227,7 @@ pub fn tr_method(cx: &mut Ctx, m: &ExprMethodCall, expected: Option<&Ty>) -> R<T
                 _ => Err(format!("Result method .{}", name)),
             }
         }
+        Ty::Struct(_) if cx.rng_mode && name == "sample" && m.args.len() == 1 => crate::expr::call_sample(cx, &recv, expected, &m.args),
         Ty::Struct(sn) => {
             let key = format!("{}::{}", sn, name);
             if let Some(fi) = cx.idx.fns.get(&key).cloned() {
@@ -320,6 +322,29 @@ pub fn tr_method(cx: &mut Ctx, m: &ExprMethodCall, expected: Option<&Ty>) -> R<T
                     let (f, _) = tr_closure(cx, arg(m, 0)?, &[el], Some(&Ty::Bool))?;
                     Ok(Tr::new(format!("(List.all {} {})", recv.s, f), Ty::Bool))
                 }
+                "fold" if crate::stmt::mentions_rng(cx, quote::ToTokens::to_token_stream(arg(m, 1)?)) => {
+                    // `(iter).fold(init, |acc, x| { … rng … })`: the source is threaded through the accumulator
+                    let init = tr_expr(cx, arg(m, 0)?, expected)?;
+                    let acc_ty = if init.ty == Ty::Int(IntK::Unk) { expected.cloned().unwrap_or(init.ty.clone()) } else { init.ty.clone() };
+                    let (f, rng_ln) = tr_rng_closure(cx, arg(m, 1)?, &[acc_ty.clone(), el])?;
+                    let tmp = cx.fresh("r");
+                    cx.prelude.push(format!("let ({}, {}) := (List.foldl {} ({}, {}) {})\n", tmp, rng_ln, f, init.val(), rng_ln, recv.s));
+                    Ok(Tr::new(tmp, acc_ty))
+                }
+                "choose" if is_list && cx.rng_mode && m.args.len() == 1 => {
+                    // `SliceRandom::choose`
+                    let r = tr_expr(cx, arg(m, 0)?, Some(&Ty::Rng))?;
+                    if r.ty != Ty::Rng {
+                        return Err("choose: argument is not the random source".into());
+                    }
+                    let full = cx.expand_first(&["SliceRandom".to_string()]).unwrap_or_default();
+                    if full.first().map(|x| x != "rand").unwrap_or(true) {
+                        return Err("choose: not rand's SliceRandom".into());
+                    }
+                    let tmp = cx.fresh("r");
+                    cx.prelude.push(format!("let ({}, {}) := (Statrs.Model.sliceChoose {} {})\n", tmp, r.s, recv.s, r.s));
+                    Ok(Tr::new(tmp, Ty::Opt(Box::new(el))))
+                }
                 "fold" => {
                     let init = tr_expr(cx, arg(m, 0)?, expected)?;
                     let (f, _) = tr_closure(cx, arg(m, 1)?, &[init.ty.clone(), el], Some(&init.ty))?;
@@ -369,4 +394,167 @@ pub fn tr_method(cx: &mut Ctx, m: &ExprMethodCall, expected: Option<&Ty>) -> R<T
         }
         t => Err(format!("method .{} on {:?}", name, t)),
     }
+}
+
+/// path of a unit-struct distribution of rand (`Open01`, `OpenClosed01`, `Standard`), through the `use` maps
+fn rand_unit_distribution(cx: &Ctx, e: &Expr) -> Option<String> {
+    let p = match strip(e) {
+        Expr::Path(p) => p,
+        _ => return None,
+    };
+    let segs = path_segs(&p.path);
+    if segs.len() == 1 && cx.lookup(&segs[0]).is_some() {
+        return None;
+    }
+    let full = cx.expand_first(&segs).unwrap_or(segs.clone());
+    if full.len() == 3 && full[0] == "rand" && full[1] == "distributions" {
+        return Some(full[2].clone());
+    }
+    None
+}
+
+fn turbofish_first(m: &ExprMethodCall, bind: &std::collections::HashMap<String, Ty>) -> Option<Ty> {
+    let t = m.turbofish.as_ref()?;
+    match t.args.first()? {
+        GenericArgument::Type(Type::Infer(_)) => None,
+        GenericArgument::Type(ty) => Some(conv_type(ty, bind)),
+        _ => None,
+    }
+}
+
+/// `rng.<method>(…)` on the random source: the primitives of `Statrs/Model/Rng.lean` (rand 0.8).
+/// Every call is hoisted in front of the enclosing statement as `let (v, rng) := prim … rng`.
+fn tr_rng_method(cx: &mut Ctx, m: &ExprMethodCall, recv: &Tr, expected: Option<&Ty>) -> R<Tr> {
+    let name = m.method.to_string();
+    let rng = recv.s.clone();
+    if !matches!(strip(&m.receiver), Expr::Path(p) if p.path.segments.len() == 1) {
+        return Err("random source is not a plain local".into());
+    }
+    let hoist = |cx: &mut Ctx, call: String, ty: Ty| -> Tr {
+        let tmp = cx.fresh("r");
+        cx.prelude.push(format!("let ({}, {}) := ({} {})\n", tmp, rng, call, rng));
+        Tr::new(tmp, ty)
+    };
+    match name.as_str() {
+        "gen" if m.args.is_empty() => {
+            let ty = turbofish_first(m, &cx.tybind).or_else(|| expected.cloned()).ok_or("rng.gen() at an unknown type")?;
+            match ty {
+                Ty::F64 => Ok(hoist(cx, "Statrs.Model.genF64 (α := α)".into(), Ty::F64)),
+                Ty::Int(IntK::U64) => Ok(hoist(cx, "Statrs.Model.Rng.nextU64".into(), Ty::Int(IntK::U64))),
+                t => Err(format!("rng.gen() at type {:?}", t)),
+            }
+        }
+        "next_u64" if m.args.is_empty() => Ok(hoist(cx, "Statrs.Model.Rng.nextU64".into(), Ty::Int(IntK::U64))),
+        "gen_bool" if m.args.len() == 1 => {
+            let p = tr_expr(cx, arg(m, 0)?, Some(&Ty::F64))?;
+            Ok(hoist(cx, format!("Statrs.Model.genBool (α := α) {}", p.s), Ty::Bool))
+        }
+        "gen_range" if m.args.len() == 1 => {
+            let r = match strip(arg(m, 0)?) {
+                Expr::Range(r) => r.clone(),
+                _ => return Err("gen_range of a non-literal range".into()),
+            };
+            let (lo_e, hi_e) = match (&r.start, &r.end) {
+                (Some(a), Some(b)) => (a, b),
+                _ => return Err("gen_range of an open range".into()),
+            };
+            let closed = matches!(r.limits, RangeLimits::Closed(_));
+            let hint = expected.cloned();
+            let lo = tr_expr(cx, lo_e, hint.as_ref())?;
+            let hi = tr_expr(cx, hi_e, Some(&lo.ty))?;
+            let ty = if lo.ty == Ty::Int(IntK::Unk) { hi.ty.clone() } else { lo.ty.clone() };
+            match (&ty, closed) {
+                (Ty::Int(IntK::I64), true) => Ok(hoist(cx, format!("Statrs.Model.genRangeI64Inclusive {} {}", lo.s, hi.s), ty.clone())),
+                (Ty::Int(IntK::Usize), false) => Ok(hoist(cx, format!("Statrs.Model.genRangeUsize {} {}", lo.s, hi.s), ty.clone())),
+                (Ty::Int(IntK::U32), false) => Ok(hoist(cx, format!("Statrs.Model.genRangeU32 {} {}", lo.s, hi.s), ty.clone())),
+                (Ty::F64, false) => {
+                    cx.uses_rngfloat = true;
+                    Ok(hoist(cx, format!("Statrs.Model.genRangeF64 (α := α) {} {}", lo.s, hi.s), Ty::F64))
+                }
+                (t, c) => Err(format!("gen_range at {:?} ({})", t, if c { "inclusive" } else { "exclusive" })),
+            }
+        }
+        "sample" if m.args.len() == 1 => {
+            let a = arg(m, 0)?;
+            // unit-struct distributions of rand
+            if let Some(d) = rand_unit_distribution(cx, a) {
+                let ty = turbofish_first(m, &cx.tybind).or_else(|| expected.cloned()).ok_or("rng.sample(..) at an unknown type")?;
+                return match (d.as_str(), &ty) {
+                    ("Open01", Ty::F64) => Ok(hoist(cx, "Statrs.Model.genOpen01 (α := α)".into(), Ty::F64)),
+                    ("OpenClosed01", Ty::F64) => Ok(hoist(cx, "Statrs.Model.genOpenClosed01 (α := α)".into(), Ty::F64)),
+                    ("Standard", Ty::F64) => Ok(hoist(cx, "Statrs.Model.genF64 (α := α)".into(), Ty::F64)),
+                    (d, t) => Err(format!("rng.sample({}) at {:?}", d, t)),
+                };
+            }
+            let d = tr_expr(cx, a, None)?;
+            match &d.ty {
+                // `rng.sample(d)`, `d: rand::distributions::Uniform<f64>`
+                Ty::RandUniform => {
+                    cx.uses_rngfloat = true;
+                    Ok(hoist(cx, format!("Statrs.Model.uniformSample (α := α) {}", d.s), Ty::F64))
+                }
+                // `rng.sample::<T, _>(self)`: `Distribution::<T>::sample(&d, rng)` of a crate distribution
+                Ty::Struct(_) => {
+                    let ty = turbofish_first(m, &cx.tybind).or_else(|| expected.cloned());
+                    let mut args: syn::punctuated::Punctuated<Expr, Token![,]> = Default::default();
+                    args.push((*m.receiver).clone());
+                    crate::expr::call_sample(cx, &d, ty.as_ref(), &args)
+                }
+                t => Err(format!("rng.sample of {:?}", t)),
+            }
+        }
+        _ => Err(format!("random-source method .{}", name)),
+    }
+}
+
+/// closure that captures the random source, as a fold step on `(acc, rng)`:
+/// `(fun st_ x => match st_ with | (acc, rng) => <body as a function body returning (value, rng)>)`.
+/// Returns the Lean closure and the Lean name of the captured source.
+fn tr_rng_closure(cx: &mut Ctx, e: &Expr, ptys: &[Ty]) -> R<(String, String)> {
+    let c = match strip(e) {
+        Expr::Closure(c) => c,
+        _ => return Err("expected a closure".into()),
+    };
+    if c.inputs.len() != ptys.len() || ptys.len() != 2 {
+        return Err("fold closure arity".into());
+    }
+    // the (single) captured source
+    let mut ids = std::collections::BTreeSet::new();
+    crate::loops::idents_in(quote::ToTokens::to_token_stream(&c.body), &mut ids);
+    let rngs: Vec<(String, String)> = ids.iter().filter_map(|n| match cx.lookup(n) { Some((ln, Ty::Rng)) => Some((n.clone(), ln)), _ => None }).collect();
+    if rngs.len() != 1 {
+        return Err("closure capturing several random sources".into());
+    }
+    let (rng_rust, rng_ln) = rngs[0].clone();
+    let body_stmts: Vec<Stmt> = match strip(&c.body) {
+        Expr::Block(b) => b.block.stmts.clone(),
+        other => vec![Stmt::Expr(other.clone(), None)],
+    };
+    // translate the body as a function body whose `&mut` parameter is the source
+    let saved_out = std::mem::replace(&mut cx.out_params, vec![rng_rust.clone()]);
+    let saved_mut_self = std::mem::replace(&mut cx.mut_self, true);
+    let saved_vd = std::mem::replace(&mut cx.value_depth, 0);
+    let saved_loops = std::mem::take(&mut cx.loop_ctx);
+    let saved_ret = std::mem::replace(&mut cx.ret, ptys[0].clone());
+    let saved_prelude = std::mem::take(&mut cx.prelude);
+    let saved_scopes = cx.scopes.clone();
+    cx.push();
+    let res: R<(String, String)> = (|| {
+        let pa = tr_pat(cx, &c.inputs[0], &ptys[0])?;
+        let pb = tr_pat(cx, &c.inputs[1], &ptys[1])?;
+        let ret_ty = ptys[0].clone();
+        let body = crate::stmt::tr_stmts(cx, &body_stmts, &crate::stmt::Cont::Value(Some(ret_ty)))?;
+        if !cx.prelude.is_empty() {
+            return Err("dangling side effect in a closure".into());
+        }
+        Ok((format!("(fun st_ {} => match st_ with\n | ({}, {}) =>\n{})", pb, pa, rng_ln, body.val()), rng_ln.clone()))
+    })();
+    cx.scopes = saved_scopes;
+    cx.prelude = saved_prelude;
+    cx.ret = saved_ret;
+    cx.loop_ctx = saved_loops;
+    cx.value_depth = saved_vd;
+    cx.mut_self = saved_mut_self;
+    cx.out_params = saved_out;
+    res
 }
